@@ -99,6 +99,7 @@ type cluster struct {
 	pidNext    int64
 	lastFaultUs int64
 	// hooks for scenario oracles
+	onView    func()
 	onAppend  func(p *mpart, b *mbatch, pr *produceReq)
 	onProduce func(br *mbroker, c *simConn, ver int16, frameLen int, pr *produceReq, sets map[string][]wbatch)
 	extra     func(br *mbroker, c *simConn, h reqHeader, body interface{}, fault *cf.Fault) (resp []byte, handled bool, noResponse bool)
@@ -176,6 +177,13 @@ func (cl *cluster) noteFault(kind string) {
 	cl.lastFaultUs = cl.k.nowUs()
 }
 
+func (cl *cluster) bumpView() {
+	cl.view++
+	if cl.onView != nil {
+		cl.onView()
+	}
+}
+
 // ---- timed faults ----
 
 func (cl *cluster) timedFault(rs *ruleState) {
@@ -186,7 +194,7 @@ func (cl *cluster) timedFault(rs *ruleState) {
 		if p := cl.part(f.Topic, f.Partition); p != nil {
 			cl.k.logf("fault leader-move %s %d->%d", p.key(), p.leader, f.To)
 			p.leader = f.To
-			cl.view++
+			cl.bumpView()
 			cl.noteFault("leader-move")
 		}
 	case "broker-down":
@@ -198,7 +206,7 @@ func (cl *cluster) timedFault(rs *ruleState) {
 	case "controller-move":
 		cl.k.logf("fault controller-move %d->%d", cl.controller, f.To)
 		cl.controller = f.To
-		cl.view++
+		cl.bumpView()
 		cl.noteFault("controller-move")
 	case "conn-reset":
 		// reset every connection of a broker (broker stays up)
@@ -263,7 +271,7 @@ func (cl *cluster) brokerDown(id int32, hole bool) {
 			}
 		}
 	}
-	cl.view++
+	cl.bumpView()
 }
 
 func (cl *cluster) brokerUp(id int32) {
@@ -287,7 +295,7 @@ func (cl *cluster) brokerUp(id int32) {
 			}
 		}
 	}
-	cl.view++
+	cl.bumpView()
 }
 
 func (cl *cluster) sortedTopics() []*mtopic {
@@ -542,6 +550,11 @@ func (cl *cluster) dispatch(c *simConn, h reqHeader, body interface{}, fault *cf
 		resp = res
 	case *sarama.ApiVersionsRequest:
 		resp = &sarama.ApiVersionsResponse{}
+	case *sarama.OffsetRequest:
+		if cl.fetch == nil {
+			panic("model: ListOffsets without fetch model")
+		}
+		resp = cl.fetch.listOffsets(br, r, fault)
 	default:
 		if cl.extra != nil {
 			b, handled, noResp := cl.extra(br, c, h, body, fault)
